@@ -33,6 +33,11 @@ func (w *World) provOf(a ArgObs) string {
 	return "[" + strings.Join(parts, " ") + "]"
 }
 
+// MaskSoftArgs: leave the content of soft group parameters out of the
+// observations (set by C15: regrouping fields legitimately changes what a soft
+// group holds, see C11).
+var MaskSoftArgs bool
+
 // Observe normalises a finished run. fnMap renames function ids (nil: identity).
 func Observe(r *Run) []OpObs {
 	out := make([]OpObs, len(r.Res))
@@ -50,7 +55,12 @@ func Observe(r *Run) []OpObs {
 				continue
 			}
 			var args []string
-			for _, a := range e.Args {
+			lp := r.H.Funcs[e.Fn].LeafParams()
+			for ai, a := range e.Args {
+				if MaskSoftArgs && ai < len(lp) && lp[ai].Soft {
+					args = append(args, "soft")
+					continue
+				}
 				args = append(args, r.W.provOf(a))
 			}
 			o.Execs = append(o.Execs, fmt.Sprintf("f%d#%d %s (%s)", e.Fn, e.Exec, exit[[2]int{e.Fn, e.Exec}], strings.Join(args, ", ")))
@@ -672,6 +682,7 @@ func init() {
 			g.ft.PRetry = 0.1
 			g.ft.PAvail = []float64{0.9, 0.98, 1}[g.r.Intn(3)]
 			g.ft.PDup = 0.03
+			g.ft.Wild = []float64{0, 0, 0.15}[g.r.Intn(3)] // rejected (cyclic) registrations between the blocks
 			if g.ft.MaxScopes < 2 {
 				g.ft.MaxScopes = 3
 			}
@@ -693,6 +704,9 @@ func init() {
 			g.ft.Callbacks = g.r.P(0.5)
 			g.ft.Variadic = g.r.P(0.6)
 			g.ft.PThenProvide = 0 // the dry container never runs the function that would register
+			// keys that only a decorator introduces: no model claim is made about
+			// them, but dry and normal containers must still agree
+			g.ft.DecoIntroduce = g.r.P(0.3)
 			if g.r.P(0.5) {
 				g.ft.MaxScopes, g.ft.MaxDepth = g.r.Range(3, 6), 3
 			}
@@ -719,8 +733,9 @@ func reencode(f *Func, r *Rng) (Func, bool) {
 	lp := f.LeafParams()
 	hasSoft := false
 	for _, p := range lp {
-		// what a soft group holds depends on which fields share its object
-		// (C11): regrouping the fields is not an equivalent encoding
+		// what a soft group holds -- and, for a decorated group, when its
+		// decorator runs -- depends on which fields share its object (C11):
+		// regrouping the fields is not an equivalent encoding
 		hasSoft = hasSoft || p.Soft
 	}
 	if len(lp) > 0 && !hasSoft {
@@ -929,9 +944,10 @@ func init() {
 		Gen: genGeneric("C15", func(g *genCtx) {
 			g.ft.FaultRate = []float64{0, 0.15}[g.r.Intn(2)]
 			g.ft.FaultInv = g.ft.FaultRate / 2
-			g.ft.Soft = false
 			g.ft.Objects = true
 			g.ft.PAvail = 0.9
+			g.ft.PWide = []float64{0, 0.03, 0.08}[g.r.Intn(3)]
+			g.ft.DecoIntroduce = g.r.P(0.2) // equivalence of encodings also holds for decorator-introduced keys
 			if g.r.Intn(5) == 0 {
 				g.ft.Catalog = true
 				g.ft.NT = 6
